@@ -168,6 +168,15 @@ def gen_cases(tier, seed):
             yield make_case(cfgv, blk, [('write_did', 0xF190, b'ABC'), ('read_dids', [0xF190]), ('write_mem', 0x1000, data, None, None),
                                         ('read_mem', 0x1000, len(data), None, None), ('download', 0x2000, data, None, None),
                                         ('read_mem', 0x2000, len(data), None, None), ('read_mem', 0x2005, 7, None, 16)], 'systematic')
+    # the same round trip with the DIDs described in the other documented ways (pack string, DidCodec instance, the application's own
+    # DidCodec subclass built on a pack string): the values are tuples of integers then, the bytes are the same
+    for form in (1, 2, 3):
+        for ex in (1, 0):
+            cfgv = list(cl.DEFAULT_CFG)
+            cfgv[cl.EX_NEG] = ex
+            yield make_case(cfgv, 0x20, [('read_dids', [0x1234]), ('write_did', 0xF190, b'ABC'), ('write_did', 0x0102, b'\x07'), ('write_did', 0x1234, b'\x12\x34'),
+                                         ('read_dids', [0xF190, 0x0102, 0x1234]), ('write_did', 0xF190, b'\x00\xff\x80'), ('read_dids', [0x1234, 0xF190]),
+                                         ('write_did', 0xFFFF, b'tail'), ('read_dids', [0x0102])], 'DID round trip / codec form %d' % form)
     for it in range(n):
         cfgv = list(cl.DEFAULT_CFG)
         cfgv[cl.SRV_ADDR] = rnd.choice([-1, 16, 32, 64])
@@ -215,6 +224,8 @@ def impl(c):
     pos = 3 + L
     blobs = list(c.blobs)
     client, conn, clk = cl.make_client(cfgv)
+    if ' / codec form ' in c.tag:
+        cl.apply_codec_form(client, int(c.tag.rsplit(' ', 1)[1]))
     ecu = Ecu(blk)
     out = []
     state = {'start': 0, 'k': 0, 'lat': 0}
